@@ -155,7 +155,7 @@ def run_c10(tier, args):
     nreg, regbad = run_regressions("C10", lambda t: os.path.join(eng_dynarr.build(), "dynarr_checked") if "\nengine dynarr" in t else bins["checked"], extra=extra)
     nviol += regbad
     total = Batch()
-    runs = [("checked", 1500 if tier == "quick" else 60000)]
+    runs = [("checked", 3000 if tier == "quick" else 60000)]
     if tier != "quick":
         runs.append(("checked_clang20", 20000))
     for fl, n in runs:
